@@ -218,10 +218,10 @@ impl Prop for C14 {
         if idx == ids().len() { "how a definition's parameters reach the protocol: settings builders and conversions".into() } else { format!("definition '{}'", ids()[idx]) }
     }
     fn rule(&self) -> String {
-        "case = one entry of GAMES (iterated from the table itself). For port {omitted, given} x timeout settings {None, \
+        "case = one entry of GAMES (iterated from the table itself). For port {omitted, given, 0} x timeout settings {None, \
          Some(retries=1)} x extra settings {None, every gather-toggle pair and check_app_id value / hostname + protocol version} \
          x server behaviour {valid with main / dedicated / foreign app id, info then silence, info+players then malformed rules, \
-         total silence}: the generic definition-driven query and the protocol's own query function called with the definition's \
+         total silence}: the generic definition-driven query (through the narrowest of the three generic wrappers that takes the arguments) and the protocol's own query function called with the definition's \
          protocol, default port and request settings must produce identical wire logs (destination, bytes, order) and equal \
          results (errors of the same kind); with default settings the game's dedicated module (found through a harness-side id \
          -> module table; `dhe4445 -> darkesthour` etc.) must do so too, its result compared after the documented conversion. \
@@ -305,10 +305,14 @@ impl Prop for C14 {
         };
         // both address families (with the full product of settings on IPv4 and the default settings on IPv6)
         for ip in [IP4, super::c09::IP6] {
-        for port in [None, Some(PORT)] {
+        // (port 0 is a port like any other to every path: given, it is used)
+        for port in [None, Some(PORT), Some(0)] {
             for ts in [None, super::c01::timeouts(1)] {
                 for extra in &extras {
                     if ip != IP4 && (extra.is_some() || ts.is_some()) {
+                        continue;
+                    }
+                    if port == Some(0) && (ip != IP4 || extra.is_some() || ts.is_some()) {
                         continue;
                     }
                     for b in &behaviours {
